@@ -55,12 +55,16 @@ def run(ctx):
             forest.add(nm, spec)
             execdir = rng.random() < 0.5
             root = nc.spelled(rng, forest.dir, nm, rng.choice(["{r}", "./{r}", "{r}/", "{abs}"]))
+            # a starting point that ends in "..": the entry is named ./.. from its parent directory (depth 0 only)
+            dotdot = rng.random() < 0.15
+            if dotdot:
+                root = nm + rng.choice([b"/..", b"/../", b"/./.."])
             tmpls = [rng.choice(TEMPLATES) for _ in range(rng.randint(0, 4))]
             status = rng.choice(["0", "0", "1", "255", "kill"])
             rec = os.path.join(forest.dir, b"rec%d" % k)
             env = dict(xc.ENV, FUV_RECORD=rec.decode(), FUV_EXIT=status)
             flag = "-execdir" if execdir else "-exec"
-            args = [fw.FIND, root.decode("utf-8", "surrogateescape"), "-sorted", flag, fw.FUV, "record"] + \
+            args = [fw.FIND, root.decode("utf-8", "surrogateescape")] + (["-maxdepth", "0"] if dotdot else []) + ["-sorted", flag, fw.FUV, "record"] + \
                    [t.decode("utf-8", "surrogateescape") for t in tmpls] + [";", "-print0"]
             p = subprocess.run(args, stdout=subprocess.PIPE, stderr=subprocess.DEVNULL, cwd=forest.dir, env=env, timeout=300)
             got = []
@@ -69,7 +73,7 @@ def run(ctx):
                     parts = line.split()
                     got.append((fw.unhex(parts[0]), [fw.unhex(x) for x in parts[1:]]))
                 os.remove(rec)
-            visits = [nc.join_ref(root, list(names)) for names in nc.listing(spec)]
+            visits = [nc.join_ref(root, list(names)) for names in nc.listing(spec)] if not dotdot else [root]
             ml = ["paths exec %d %s %s %s" % (int(execdir), fw.hexs(fw.FUV.encode()), xc.hexlist([b"record"] + tmpls), fw.hexs(v)) for v in visits]
             mout = fw.run_lines(fw.FUVM, ml, shards=1)
             exp = []
@@ -100,6 +104,15 @@ def run(ctx):
         ctx.count(("missing-command",), True, "missing-command")
         if p.stdout != b"" or p.returncode != 0:
             bad.append((["-exec /nonexistent/cmd"], p.stdout, b"", [], [], p.returncode, ("f", 0)))
+        # the same when the diagnostic cannot be written (standard error on a full device): the action is false for every file, the
+        # walk goes on and find's status is unaffected
+        with open("/dev/full", "wb") as full:
+            p = subprocess.run([fw.FIND, ".", "-maxdepth", "1", "-exec", "/nonexistent/cmd", "{}", ";", "-o", "-printf", "F"], stdout=subprocess.PIPE,
+                               stderr=full, cwd=forest.dir, env=xc.ENV)
+        nent = 1 + len(os.listdir(forest.dir))
+        ctx.count(("missing-command-stderr-full",), True, "missing-command")
+        if p.stdout != b"F" * nent or p.returncode != 0:
+            bad.append((["-exec /nonexistent/cmd (stderr full)"], p.stdout, b"F" * nent, [], [], p.returncode, ("f", 0)))
         for args, got_n, exp, printed, exp_printed, rc, spec in bad[:2]:
             first = next(((a, b) for a, b in zip(list(got_n) + [None], list(exp) + [None]) if a != b), None) if isinstance(got_n, list) else None
             if isinstance(printed, int):
